@@ -674,9 +674,9 @@ func (w *World) close() {
 // fork copies the world (databases, generator, abstract chain); the model is brought to the same
 // state by loading the saved prefix.
 func (w *World) fork(name string, r *lib.RNG, id uint64, pool *DrvPool, v Variant, prunerInit bool) *World {
-	n := len(w.Chain)
 	f := &World{Src: w.Src.fork(r, id), Node: w.Node.forkNode(prunerInit), Res: w.Res, Name: name,
-		Chain: w.Chain[:n:n], Bundles: w.Bundles[:n:n], Hist: append([]Op{}, w.Hist...)}
+		Chain: append([]Plan(nil), w.Chain...), Bundles: append([]*lib.Bundle(nil), w.Bundles...),
+		Hist: append([]Op{}, w.Hist...)}
 	f.startDriver(pool, v, true)
 	return f
 }
